@@ -418,7 +418,10 @@ impl ReadonlyRandomAccessFile for SimHandle {
     }
 
     fn len(&self) -> io::Result<u64> {
-        let st = self.fs.state.lock();
+        let fs = Arc::clone(&self.fs);
+        let mut st = fs.state.lock();
+        // the size query on an open handle can fail like the one by path
+        fs.check_fault(&mut st, "size", &self.path)?;
         Ok(st.disk.inodes.get(&self.inode).map_or(0, |f| f.len()) as u64)
     }
 }
